@@ -382,6 +382,12 @@ var prop = &ev.Prop[Case]{Sub: "alias", Quick: 100000, Thorough: 800000, Gen: ge
 
 func TestRegress(t *testing.T) { prop.Regress(t) }
 func TestReplay(t *testing.T)  { prop.Replay(t) }
-func TestProp(t *testing.T)    { prop.Run(t) }
+func TestProp(t *testing.T) {
+	for _, n := range entries {
+		ev.R().Floor("accepted:"+n, 20)
+	}
+	ev.R().Floor("scribbled-on-returned-slices", 50)
+	prop.Run(t)
+}
 
 var _ = bytes.Equal
